@@ -27,10 +27,14 @@ def main():
         import replay
 
         sys.exit(replay.run(a.prop, a.replay))
+    from drivers import infer
+
     try:
         rc = fn(a.tier)
     except tlc.MachineryError as e:
         machinery_failure(str(e))
+    except infer.InterpreterCrash as e:
+        machinery_failure("a worker process died abruptly (native crash) also when its task was re-run in isolation:\n" + "\n".join(f"  {f}: {t}" for f, t in e.args[0][:5]))
     sys.exit(rc)
 
 
